@@ -182,8 +182,20 @@ def run(ctx, rep, prop, max_variants=None, seed=0):
     jobs = jobs[:limit]
     total = len(jobs)
     nproc = min(16, os.cpu_count() or 4)
+    # wall-clock budget: on a slow or busy machine the run analyses fewer variants
+    # instead of taking arbitrarily long (the number analysed is reported)
+    import time
+    budget = float(os.environ.get("VERIF_SENS_BUDGET_S", "300"))
+    t0 = time.time()
+    results = []
     with mp.Pool(nproc) as pool:
-        results = pool.map(_worker, jobs, chunksize=4)
+        for r in pool.imap_unordered(_worker, jobs, chunksize=2):
+            results.append(r)
+            if time.time() - t0 > budget:
+                pool.terminate()
+                break
+    results.sort(key=lambda r: (r[0], r[1], r[2], str(r[3])))
+    planned, total = total, len(results)
     stat = {"detected": 0, "gap": 0, "analysis-error": 0, "checker-crash": 0, "skipped": 0}
     gaps = []
     det_by_rule = {}
@@ -203,7 +215,8 @@ def run(ctx, rep, prop, max_variants=None, seed=0):
         "gaps_sample": sorted(gaps, key=lambda g: (g["file"], g["line"]))[:120],
         "note": "single in-memory AST edits (comparison/boolean/sign/constant/name swaps, statement or handler removal) of the functions the property is anchored in; a gap is an edit the rules do not report - many gaps are edits that do not affect this property (equivalent or irrelevant), they are listed so that a reader can judge the reach of the check",
     }
-    rep.obl.note(f"sensitivity run: {total} variants, {stat['detected']} reported, {stat['analysis-error']} stopped with ANALYSIS-ERROR, {stat['gap']} not reported (listed as SENSITIVITY-GAP in the evidence), {stat['checker-crash']} checker crashes")
+    rep.extra["sensitivity"]["variants_planned"] = planned
+    rep.obl.note(f"sensitivity run: {total} of {planned} planned variants (time budget {budget:.0f}s), {stat['detected']} reported, {stat['analysis-error']} stopped with ANALYSIS-ERROR, {stat['gap']} not reported (listed as SENSITIVITY-GAP in the evidence), {stat['checker-crash']} checker crashes")
     if stat["checker-crash"]:
         raise AnalysisError(f"{stat['checker-crash']} sensitivity variants crashed the checker")
     return stat
